@@ -6,7 +6,8 @@ from checks.c07 import SRC, LDWRAP
 RULE = ("case = (input: compressible / incompressible / empty, size around block_size x threads; threads 1-8; block_size 4 KiB-"
         "1 MiB; preset or explicit chain; timeout 0/1/20 ms; action script of RUN / FULL_FLUSH / FULL_BARRIER at random "
         "offsets with lzma_filters_update between Blocks, then FINISH; output windows random or 1-3 bytes; optional "
-        "lifecycle event: lzma_end after the k-th call, or re-initialisation of the same handle with the same / another "
+        "two 24 MiB incompressible Blocks behind a three-filter chain per run (the worker falls back to "
+        "lzma_block_uncomp_encode, which rewrites the Block Header); lifecycle event: lzma_end after the k-th call, or re-initialisation of the same handle with the same / another "
         "thread count and block size while workers may still run, followed by a full encode) executed (a) under "
         "ThreadSanitizer with seeded yield/sleep perturbation at every pthread operation, (b) under ASan+UBSan with the "
         "same perturbation, (c) under ASan+UBSan with the serialising randomised scheduler (deadlock = no enabled thread). "
@@ -48,6 +49,7 @@ def run(ctx):
     ctx.require("reinit_same_threads", c.get("reinit_same_threads", 0), 30)
     ctx.require("reinit_other_threads", c.get("reinit_other_threads", 0), 30)
     ctx.require("multi_block_outputs", c.get("multi_block_outputs", 0), 500)
+    ctx.require("cases_incompressible_fallback", c.get("cases_incompressible_fallback", 0), 1)
     ctx.require("serial_switches", c.get("serial_switches", 0), 50000)
     ev = {"worker_reuse": 1, "wait": 3, "timed_out": 4, "reinit_end": 6, "flush_block": 8, "threads_end": 10}
     for name, i in ev.items():
